@@ -1,39 +1,26 @@
-"""Genuine defects of /repo found by the C13 engine (proved as *_refuted theorems in coq/Range/Props_C13.v and
-re-found by the search on every run).  Proposed entries for /verif/known_findings.json; until the lead moves them
-there, props/C13.py appends them to ck.known so that the unchanged tree reports KNOWN-FINDING lines.
-`match_key` is matched against the violation key produced by the search (props/C13.py)."""
+"""OPEN genuine defects of /repo found by the C13 engine (each proved as a *_refuted theorem in
+coq/Range/Props_C13.v and re-found by the search on every run).  They belong in /verif/known_findings.json;
+props/C13.py appends an entry to ck.known only while that file has no entry with the same id."""
 
 FINDINGS = [
     {
-        "id": "C13-join-none",
         "property": "C13",
+        "id": "C13-join-name-only",
         "status": "open",
-        "match_key": r"^(join:none-or-name|bounds_inference:join):",
-        "what": "IndexRange.__or__ (the join used by stdlib bounds_inference and by fold-buffer's "
-                "merge_index_ranges/update_access_window) replaces a missing bound (None = unbounded) by the other "
-                "operand's bound, and matches bases by NAME: (0,0,None) | (0,3,3) = (0,0,3); "
-                "(n,0,0) | (0,3,3) | (0,5,5) = (0,5,5); bounds_inference over `for i in seq(0,n): x[i]=..` "
-                "followed by `x[3]=..` reports [0,3]",
-        "theorems": ["C13_join_refuted", "C13_join_chain_refuted", "C13_bounds_inference_refuted"],
+        "what": "IndexRange.__or__ decides that two bases are equal with LoopIR_Compare.match_e, which compares "
+                "Sym NAMES only: ranges over two different Syms called n are merged and the second base is lost. "
+                "Reachable: p(n: size, x) with `for i in seq(0,4): for s in seq(0,1): x[i]=..; x[n]=..`, "
+                "simplify(unroll_loop(divide_loop(p,'i',4,['o','n'],perfect=True),'o')), then "
+                "bounds_inference(q.find_loop('s'),'x',0) reports (n,0,0) = the loop variable only",
+        "match_key": "^join:name-only-base-match:",
     },
     {
-        "id": "C13-partial-eval-drops-offsets",
         "property": "C13",
-        "status": "open",
-        "match_key": r"^partial_eval_with_range:offsets-dropped:",
-        "what": "IndexRange.partial_eval_with_range discards self.lo/self.hi whenever the stride is non-zero: the "
-                "window (i, 0, 3) with i in [0,7] becomes (0, 0, 7) instead of (0, 0, 10); resize_dim(.., fold=True) "
-                "therefore accepts `for i in seq(0,8): x[i]=1.0; x[i+3]=2.0` followed by `y[0]=x[4]` with size 4 "
-                "and changes the value read (1.0 -> 2.0)",
-        "theorems": ["C13_partial_eval_refuted"],
-    },
-    {
         "id": "C13-user-shadowed-name",
-        "property": "C13",
         "status": "open",
-        "match_key": r"^(infer_range|bounds_inference):shadowed-name:",
-        "what": "stdlib infer_range keys its environment by the loop variable's NAME and visits ancestors innermost "
-                "first: for `for i in seq(0,4): for i in seq(0,8): x[i]` it reports [0,3] for the inner i",
-        "theorems": ["C13_user_level_shadow_refuted"],
+        "what": "stdlib infer_range / bounds_inference key their environment by the loop variable's NAME string and "
+                "visit ancestors innermost first: for `for k: for i in seq(0,4): for i in seq(0,8): x[i]` "
+                "infer_range(idx, loop_k) reports [0,3] although the inner i reaches 7",
+        "match_key": "^(infer_range|bounds_inference):shadowed-name:",
     },
 ]
